@@ -115,8 +115,11 @@ impl FilterDefinition {
     /// # Ok::<(), tackler::Error>(())
     /// ```
     pub fn from_armor(filt_armor_str: &str) -> Result<FilterDefinition, tackler::Error> {
-        let filt_armor = if FilterDefinition::is_armored(filt_armor_str) {
-            filt_armor_str.trim_start_matches(FilterDefinition::FILTER_ARMOR)
+        // exactly one armor prefix: "base64:base64:..." is not valid armor
+        let filt_armor = if let Some(payload) =
+            filt_armor_str.strip_prefix(FilterDefinition::FILTER_ARMOR)
+        {
+            payload
         } else {
             let filt_begin = match filt_armor_str.char_indices().nth(10) {
                 None => filt_armor_str,
